@@ -26,7 +26,7 @@ open VlsModel.Lemmas.EnforcementFn
 
 theorem C02_fn_get_current_holder_commitment_info (f : String → Bool) (hf : f "policy-other" = true)
     (c : Chan) (n : Nat) :
-    Validator.get_current_holder_commitment_info f (toES c) n
+    Validator.get_current_holder_commitment_info f () (toES c) n
       = if n + 1 > Rs.U64_MAX then .error .overflow
         else if n + 1 ≠ c.next then .error (.err "policy-other")
         else match c.cur with
@@ -46,9 +46,9 @@ theorem C02_fn_get_current_holder_commitment_info (f : String → Bool) (hf : f 
 /-- `sign_holder_commitment_tx_phase2`: the model's reply class is the class of the generated guard; a signature is
     released exactly when the guard returns -/
 theorem C02_fn_signHolder (c : Chan) (n : Nat) :
-    (signHolder c n).out.res = cls (Validator.get_current_holder_commitment_info strict (toES c) n)
+    (signHolder c n).out.res = cls (Validator.get_current_holder_commitment_info strict () (toES c) n)
     ∧ ((signHolder c n).out.signed = some n ↔
-        ∃ r, Validator.get_current_holder_commitment_info strict (toES c) n = .ok r)
+        ∃ r, Validator.get_current_holder_commitment_info strict () (toES c) n = .ok r)
     ∧ ((signHolder c n).out.signed = none ∨ (signHolder c n).out.signed = some n) := by
   rw [C02_fn_get_current_holder_commitment_info strict rfl]
   have hm : U64.MAX = Rs.U64_MAX := by rfl
@@ -77,7 +77,7 @@ theorem C02_fn_signHolder_current (c : Chan) (n : Nat) (h : (signHolder c n).out
 
 /-- under every filter: whatever the guard returns is the stored current commitment, and the state is untouched -/
 theorem C02_fn_guard_returns_current (f : String → Bool) (c : Chan) (n : Nat) (e : ES) (i : Nat)
-    (hok : Validator.get_current_holder_commitment_info f (toES c) n = .ok (e, i)) :
+    (hok : Validator.get_current_holder_commitment_info f () (toES c) n = .ok (e, i)) :
     e = toES c ∧ c.cur = some i := by
   unfold Validator.get_current_holder_commitment_info at hok
   by_cases h : n + 1 ≤ Rs.U64_MAX
@@ -105,14 +105,14 @@ theorem C02_fn_guard_returns_current (f : String → Bool) (c : Chan) (n : Nat) 
     current one (the caller would then sign the current content under the requested number's keys).  Never done by
     the harness' filters; the model fixes the strict filter. -/
 theorem C02_fn_guard_demoted :
-    Validator.get_current_holder_commitment_info (fun _ => false)
+    Validator.get_current_holder_commitment_info (fun _ => false) ()
         (toES { slot := .ready, next := 5, cur := some 7 }) 1
       = .ok (toES { slot := .ready, next := 5, cur := some 7 }, 7) := by rfl
 
 -- non-vacuity
-example : Validator.get_current_holder_commitment_info strict (toES { slot := .ready, next := 5, cur := some 7 }) 4
+example : Validator.get_current_holder_commitment_info strict () (toES { slot := .ready, next := 5, cur := some 7 }) 4
     = .ok (toES { slot := .ready, next := 5, cur := some 7 }, 7) := by rfl
-example : Validator.get_current_holder_commitment_info strict (toES { slot := .ready, next := 5, cur := some 7 }) 3
+example : Validator.get_current_holder_commitment_info strict () (toES { slot := .ready, next := 5, cur := some 7 }) 3
     = .error (.err "policy-other") := by rfl
 example : (signHolder { slot := .ready, next := 5, cur := some 7 } 4).out.signed = some 4 := by rfl
 
